@@ -195,6 +195,11 @@ Proof.
     assert (H1 : inv (strict_ss data s)) by (unfold strict_ss; apply inv_set_ss; exact H).
     eapply (lg_do_sync (strict_ss data s) k s1 H1); [|exact Ed|exact A].
     apply strict_verify_snap. exact LG.
+  - (* LsCkptBusy *)
+    destruct (pc data s) as [| | | | |m0 ? ?| | | | | | | | | ]; try discriminate.
+    destruct m0; try discriminate. destruct (ls_mark data s); [discriminate|].
+    match type of E with (if ?c then _ else _) = _ => destruct c; [|discriminate] end.
+    inversion E; subst. apply Same. reflexivity.
   - (* LsFail *)
     destruct (in_call (pc data s) && opened data s); [|discriminate]. inversion E; subst.
     apply Same. symmetry. apply fail_st_lg.
@@ -545,3 +550,49 @@ Theorem lost_never_looks_continuous (data : Type) (zero : data) (lock : N) s0 ls
   steps_head data lock true true true true true s0 ls ->
   cur data s = Lost -> l0 data s = [] \/ cgen data s < gen data s.
 Proof. apply lost_never_looks_continuous_lemma. Qed.
+
+(** * A TRUNCATE checkpoint that comes back busy ([LsCkptBusy]): an application commit lands
+      while the read lock is released, the PRAGMA backfills what it can and does not reset
+      the WAL; the header is unchanged after the bump, the call returns, the next sync
+      continues incrementally and nothing is lost *)
+Definition busy_truncate_steps : list (label N) :=
+  [ AppCommit N [F 1 2 11] false;
+    AppCommit N [F 2 2 21] false;
+    LsOpen N;                      (* read mark 2 *)
+    LsSync N 0;                    (* snapshot, cursor at frame 2 *)
+    LsAck N;
+    LsCkStart N Truncate;
+    LsSync N 0;                    (* copy before checkpoint: nothing new *)
+    LsRelease N;
+    AppCommit N [F 1 2 99] false;  (* appended while the read lock is released *)
+    LsCkptBusy N 2 2%N;            (* busy: frames 1-2 backfilled, no reset *)
+    LsReacquire N;                 (* read mark 3 *)
+    LsMid N;
+    LsUnlock N;
+    LsBump N [F 2 2 22] false;     (* appended: the header does not change *)
+    LsCmpHdr N;                    (* not restarted *)
+    LsSync N 2;                    (* incremental: the application's commit and the bump *)
+    LsAck N ].
+
+Example busy_truncate_ok : steps_ok N 1000%N true true true true true ex_init busy_truncate_steps.
+Proof.
+  cbn [busy_truncate_steps Machine.steps_ok].
+  repeat (split; [first [exact I | apply tx_okb_sound; vm_compute; reflexivity]|]; vm_compute Machine.step; cbv iota beta).
+  exact I.
+Qed.
+
+Example busy_truncate_head : steps_head N 1000%N true true true true true ex_init busy_truncate_steps.
+Proof.
+  cbn [busy_truncate_steps Machine.steps_head].
+  repeat (split; [vm_compute; reflexivity|]; vm_compute Machine.step; cbv iota beta).
+  exact I.
+Qed.
+
+Example busy_truncate_run :
+  option_map (fun s => (length (l0 N s), gen N s, pc N s, cur N s,
+                        map (fun a => (fst (fst a), snd a)) (acks N s),
+                        map (fst (restore N 0%N 1000%N (l0 N s))) [1; 2]%N,
+                        map (fst (committed N s)) [1; 2]%N))
+             (run N 1000%N true true true true true ex_init busy_truncate_steps)
+  = Some (2, 0, Idle, AtLive 4, [(2, true); (1, true)], [99; 22]%N, [99; 22]%N).
+Proof. vm_compute. reflexivity. Qed.
